@@ -6,6 +6,9 @@ import numpy as np
 def replay(spec):
     import warnings
     warnings.simplefilter("ignore")
+    if spec.get("kind") == "scenario":          # obligations on the rule passes around the integrator (shared with C09 / C07)
+        from .C07 import replay as replay_c07
+        return replay_c07(spec)
     if spec.get("kind") == "derivative":
         from .C03 import replay as replay_c03
         return replay_c03(spec)
@@ -40,6 +43,12 @@ def replay(spec):
                                 (["C"], [], "general", {"rate": "%r*abs(A - B)" % k3})],
                                lambda t, s: {"A": -k1 * min(s["A"], s["B"], s["C"]), "B": k1 * min(s["A"], s["B"], s["C"]) - k2 * max(s["A"], s["B"], s["C"]),
                                              "C": k2 * max(s["A"], s["B"], s["C"]) - k3 * abs(s["A"] - s["B"])})
+    cases["massaction_order3"] = (["A", "B", "C"],
+                                  [(["A", "B", "A"], ["C"], "massaction", {"k": k1}), (["C"], ["A"], "massaction", {"k": k2}),
+                                   (["B", "C", "A", "B"], ["A"], "massaction", {"k": k3})],
+                                  lambda t, s: {"A": -2 * k1 * s["A"] ** 2 * s["B"] + k2 * s["C"],
+                                                "B": -k1 * s["A"] ** 2 * s["B"] - 2 * k3 * s["A"] * s["B"] ** 2 * s["C"],
+                                                "C": k1 * s["A"] ** 2 * s["B"] - k2 * s["C"] - k3 * s["A"] * s["B"] ** 2 * s["C"]})
     names = [spec["model"]] if spec.get("model") in cases else list(cases)
     for name in names:
         species, rx, rhs = cases[name]
